@@ -390,6 +390,20 @@ func TestCheck(t *testing.T) {
 	if r.Replay != nil {
 		var c Case
 		r.DecodeReplay(&c)
+		var fam struct {
+			Family string `json:"family"`
+		}
+		r.DecodeReplay(&fam)
+		if fam.Family == "multi-proposal" {
+			var mcse MultiCase
+			r.DecodeReplay(&mcse)
+			k, d := executeMulti(t, mcse)
+			r.Eval(1)
+			if k != "" && k != "setup" {
+				r.Fail(k, fmt.Sprintf("%s: %s", mcse, d), len(mcse.Proposed), mcse)
+			}
+			return
+		}
 		if strings.HasPrefix(c.Wiring, "program-") {
 			k, d := executeProgramWiring(c)
 			if k == "inconclusive" {
@@ -467,6 +481,7 @@ func TestCheck(t *testing.T) {
 		}
 		idx++
 	}
+	multiProposalCases(t, r, idx+50000)
 	for _, c := range programWiringCases() {
 		if r.Mine(idx) {
 			k, d := executeProgramWiring(c)
